@@ -1,3 +1,3 @@
 #include "engine.h"
-extern Family fam_lp, fam_hist, fam_inv, fam_basis, fam_copy, fam_lowp, fam_meta, fam_wr, fam_num, fam_rd, fam_esol, fam_grow, fam_factor, fam_binv, fam_rdr;
-Family *g_families[] = { &fam_lp, &fam_hist, &fam_inv, &fam_basis, &fam_copy, &fam_lowp, &fam_meta, &fam_wr, &fam_num, &fam_rd, &fam_esol, &fam_grow, &fam_factor, &fam_binv, &fam_rdr, 0 };
+extern Family fam_lp, fam_hist, fam_inv, fam_basis, fam_copy, fam_lowp, fam_meta, fam_wr, fam_num, fam_rd, fam_esol, fam_grow, fam_factor, fam_binv, fam_rdr, fam_cpar;
+Family *g_families[] = { &fam_lp, &fam_hist, &fam_inv, &fam_basis, &fam_copy, &fam_lowp, &fam_meta, &fam_wr, &fam_num, &fam_rd, &fam_esol, &fam_grow, &fam_factor, &fam_binv, &fam_rdr, &fam_cpar, 0 };
